@@ -226,6 +226,73 @@ def _peek_tag(path):
 _loaded = {}
 
 
+_EXPECTED_ADTS = None
+
+
+def _expected_adts():
+    """the ADT paths the rules refer to (string literals `scale_info::..` / `scale_info_derive::..` in the rule modules)"""
+    global _EXPECTED_ADTS
+    if _EXPECTED_ADTS is None:
+        import re as _re
+        found = set()
+        for root in (os.path.join(VERIF, "rules", "props"), os.path.join(VERIF, "rules", "lib")):
+            for fn in os.listdir(root):
+                if fn.endswith(".py"):
+                    found |= set(_re.findall(r'"(scale_info(?:_derive)?(?:::[A-Za-z_][A-Za-z0-9_]*)+)"', open(os.path.join(root, fn)).read()))
+        _EXPECTED_ADTS = found
+    return _EXPECTED_ADTS
+
+
+def canonical_paths(txt, crate):
+    """Where an item is *declared* is not behaviour.  Two renderings of rustc's definition paths depend on it and are normalised in the fact text:
+    (1) an inherent impl written in another module than its type is printed `that::module::<impl the::Type>::method`; it becomes `the::Type::method`,
+        the form used when impl and type share a module;
+    (2) a type moved into a (private) sub-module of its old module and re-exported keeps its public path but gets a longer definition path; when a
+        path the rules refer to is gone and exactly one type of that name now lives below the old module, the old path is restored."""
+    import re as _re
+    # (1) inherent impls (no ` for `): `prefix::<impl X>::` -> `X::`
+    out, i = [], 0
+    for m in _re.finditer(r"((?:[A-Za-z_][A-Za-z0-9_]*::)+)<impl ", txt):
+        if m.start() < i:
+            continue
+        j = m.end()
+        depth = 1
+        while j < len(txt) and depth:
+            c = txt[j]
+            if c == "<":
+                depth += 1
+            elif c == ">" and txt[j - 1] != "-":
+                depth -= 1
+            elif c in '"\\' :
+                break
+            j += 1
+        inner = txt[m.end():j - 1]
+        if depth or " for " in inner or not txt.startswith("::", j) or not inner.startswith(("scale_info::", "scale_info_derive::", "verif_fixtures::")):
+            continue      # trait impls, and inherent impls of foreign / primitive types (`core::str::<impl str>::split`), keep their rendering
+        out.append(txt[i:m.start()])
+        out.append(_re.sub(r"<.*$", "", inner))      # the self type without its generic arguments (strip_generics drops them anyway)
+        i = j
+    out.append(txt[i:])
+    txt = "".join(out)
+    # (2) moved types
+    adts = set(_re.findall(r'"path": "(%s(?:::[A-Za-z_][A-Za-z0-9_]*)+)", "kind": "(?:struct|enum|union)"' % _re.escape(crate), txt))
+    if adts:
+        for e in sorted(_expected_adts()):
+            if not e.startswith(crate + "::") or e in adts:
+                continue
+            mod_, _, name = e.rpartition("::")
+            cands = [a for a in adts if a.rsplit("::", 1)[-1] == name and a.startswith(mod_ + "::")]
+            if len(cands) == 1 and ('"%s::' % e) not in txt and ('"%s"' % e) not in txt:
+                txt = _re.sub(r"(?<![A-Za-z0-9_:])%s(?![A-Za-z0-9_])" % _re.escape(cands[0]), e, txt)
+    return txt
+
+
+def load_json_canonical(path, crate="scale_info"):
+    """a fact file of another crate that refers to the analysed ones (the derive corpus), with the same canonical definition paths"""
+    with open(path) as f:
+        return json.loads(canonical_paths(f.read(), crate))
+
+
 def load_mir(features, crate="scale_info", want_derive=False):
     config = cfg_name(features)
     key = (config, crate)
@@ -235,7 +302,7 @@ def load_mir(features, crate="scale_info", want_derive=False):
         if not os.path.exists(p):
             raise EngineError("missing fact file %s" % p)
         with open(p) as f:
-            _loaded[key] = json.load(f)
+            _loaded[key] = json.loads(canonical_paths(f.read(), crate))
         _loaded[key]["_config"] = config
         _loaded[key]["_path"] = p
     return _loaded[key]
